@@ -228,7 +228,7 @@ def animate_path(
             height=None,
             title=title,
         )
-    sliders = [sliders_dict] if animation_slider else None
+    sliders = [sliders_dict] if animation_slider else []
     fig.update_layout(
         updatemenus=[*fig.layout.updatemenus, buttons_dict],
         sliders=[*fig.layout.sliders, *sliders],
